@@ -4,7 +4,7 @@ Exhaustive product: {56 syntactically valid but ill-typed or partial expressions
 only for some items)} x {positions: match, let, field, tag, transform, top-level variable} x {bad element first /
 middle / last among good rules} x 10 transactions processed IN SEQUENCE through one engine (items on which the
 expression fails come before items on which it works), through MerchantEngine.match, the
-get_all_rules/normalize_merchant path and parse_generic_csv; plus 14 view filters x {view filter, view variable}
+get_all_rules/normalize_merchant path and parse_generic_csv; plus 14 view filters x {view filter, view-local variable, global variable}
 x positions through analyze_transactions -> classify_by_sections.  Differential oracle (no hand-written
 expectations): the call returns normally; per item the result equals that of a fresh engine on the same file,
 and for every item on which the expression raises when evaluated alone it equals the result of the file with
@@ -22,7 +22,7 @@ from mc.checks import rules_common as R
 PROPERTY = "C08"
 LEVEL = "exploration"
 RULE = ("cases = every (expression, position, placement) triple over 56 ill-typed/partial/lazily failing transaction expressions x 6 positions x 3 placements, "
-        "and every (filter, kind, placement) triple over 14 view expressions x 2 kinds x 3 placements (thorough adds all ordered pairs of two bad "
+        "and every (filter, kind, placement) triple over 14 view expressions x 3 kinds x 3 placements (thorough adds all ordered pairs of two bad "
         "rules); each case classifies 10 transactions (4 merchants for views) through 3 entry points. non-trivial = cases whose file the loader "
         "accepts and whose expression raises for at least one item; triples distinct by construction")
 ASSUMPTIONS = ["'fails for an item' is decided by evaluating the expression alone on that item with the real evaluator",
@@ -48,7 +48,7 @@ PLACEMENTS = ["first", "middle", "last"]
 
 VIEW_BAD = ['total > "x"', 'sum(by("month")) > 5', 'by("nope")', 'period("nope") > 1', 'max_val(1) > 0', 'avg("x") > 1', '"x" in total', 'tags > 1',
             'nope', 'nope_fn(1)', 'sum(payments) > "x"', 'category + 1 == 2', 'months > cv > "a"', 'min(by("month")) > 5']
-VIEW_KINDS = ["filter", "variable"]
+VIEW_KINDS = ["filter", "variable", "global-variable"]
 
 TXNS = [  # failing-first order for the partial expressions: no field / no date first
     {"description": "NETFLIX 123", "amount": 50.0, "date": None, "field": None, "source": None},
@@ -261,15 +261,20 @@ def check_rules(case):
 # ------------------------------------------------------------------------------------------------ views
 def view_text(e, vkind, placement, remove=False):
     good1 = "[Food]\nfilter: category == \"Food\"\n"
-    good2 = "[Big]\nfilter: total > 50\n"
+    good2 = "[Big]\nlim = 50\nfilter: total > lim\n"          # a view with its own local variable
+    pre = ""
     if vkind == "filter":
         bad = f"[BadView]\nfilter: {VIEW_BAD[e]}\n"
-    else:
+    elif vkind == "variable":
         bad = f"[BadView]\ng = {VIEW_BAD[e]}\nfilter: g > 0 or count(g) > 0\n"
+    else:
+        # the failing expression is a GLOBAL variable; only BadView uses it
+        pre = "" if remove else f"gbad = {VIEW_BAD[e]}\n\n"
+        bad = "[BadView]\nfilter: gbad > 0 or count(gbad) > 0\n"
     blocks = {"first": [bad, good1, good2], "middle": [good1, bad, good2], "last": [good1, good2, bad]}[placement]
     if remove:
         blocks = [b for b in blocks if b is not bad]
-    return "\n".join(blocks)
+    return pre + "\n".join(blocks)
 
 
 def view_inputs():
